@@ -99,5 +99,13 @@ where
 
 def firSpec (b xs : List α) : List α := (List.range xs.length).map (convAt b xs)
 
+
+/-- A history of list operations and uses of mutable banks, in the words of the property: every
+    use answers for the bank AS IT IS NOW — product over each cascade, sum over each parallel bank
+    of the transfer functions of the filters that are in the lists at that moment (`Bank.spec` of
+    the snapshot); calling the bank is the convolution with each leaf, composed / added. -/
+def histSpec [DecidableEq α] {φ : Type} (pt : φ → α) (heap : List (Obj α)) (ops : List (HOp φ α)) :
+    List (Obs α) := runH pt (fun w t => Bank.spec w t) firSpec heap ops
+
 end generic
 end ALV.C12
